@@ -536,8 +536,110 @@ def boolean_ints(tree: ast.AST) -> int:
     return done
 
 
+def import_spellings(tree: ast.Module) -> int:
+    """One spelling for imported names the repository imports one way only:
+         numpy            -> np.<name>      (import numpy / import numpy as <x> / from numpy import <name> [as <y>])
+         math, operator, itertools -> bare <name>   (import math; math.prod  ->  prod)
+    Names re-bound inside a function (parameters, assignments) are left alone there."""
+    done = 0
+    np_aliases: Set[str] = set()          # module aliases of numpy other than np
+    from_numpy: Dict[str, str] = {}       # local name -> numpy attribute
+    bare_modules: Dict[str, str] = {}     # alias -> module for math / operator / itertools
+    for node in tree.body:
+        if isinstance(node, ast.Import):
+            for al in node.names:
+                if al.name == "numpy" and (al.asname or "numpy") != "np":
+                    np_aliases.add(al.asname or "numpy")
+                if al.name in ("math", "operator", "itertools"):
+                    bare_modules[al.asname or al.name] = al.name
+        elif isinstance(node, ast.ImportFrom) and node.module == "numpy" and node.level == 0:
+            for al in node.names:
+                if al.name != "*":
+                    from_numpy[al.asname or al.name] = al.name
+    if not (np_aliases or from_numpy or bare_modules):
+        return 0
+
+    def bound_in(fn) -> Set[str]:
+        out = {a.arg for a in fn.args.posonlyargs + fn.args.args + fn.args.kwonlyargs}
+        if fn.args.vararg:
+            out.add(fn.args.vararg.arg)
+        if fn.args.kwarg:
+            out.add(fn.args.kwarg.arg)
+        for x in ast.walk(fn):
+            if isinstance(x, ast.Name) and isinstance(x.ctx, (ast.Store, ast.Del)):
+                out.add(x.id)
+        return out
+
+    class T(ast.NodeTransformer):
+        def __init__(self):
+            self.shadow: List[Set[str]] = [set()]
+
+        def _scope(self, node):
+            self.shadow.append(self.shadow[-1] | bound_in(node))
+            try:
+                return self.generic_visit(node)
+            finally:
+                self.shadow.pop()
+
+        visit_FunctionDef = visit_AsyncFunctionDef = _scope
+
+        def visit_Lambda(self, node):
+            self.shadow.append(self.shadow[-1] | {a.arg for a in node.args.args})
+            try:
+                return self.generic_visit(node)
+            finally:
+                self.shadow.pop()
+
+        def visit_Attribute(self, node):
+            nonlocal done
+            self.generic_visit(node)
+            v = node.value
+            if isinstance(v, ast.Name) and v.id not in self.shadow[-1]:
+                if v.id in np_aliases:
+                    done += 1
+                    node.value = ast.copy_location(ast.Name(id="np", ctx=ast.Load()), v)
+                elif v.id in bare_modules and isinstance(node.ctx, ast.Load) and node.attr not in self.shadow[-1]:
+                    done += 1
+                    return ast.copy_location(ast.Name(id=node.attr, ctx=ast.Load()), node)
+            return node
+
+        def visit_Name(self, node):
+            nonlocal done
+            if isinstance(node.ctx, ast.Load) and node.id in from_numpy and node.id not in self.shadow[-1]:
+                done += 1
+                return ast.copy_location(ast.Attribute(value=ast.Name(id="np", ctx=ast.Load()), attr=from_numpy[node.id], ctx=ast.Load()), node)
+            return node
+
+    keep = []
+    for node in tree.body:
+        keep.append(node if isinstance(node, (ast.Import, ast.ImportFrom)) else T().visit(node))
+    tree.body = keep
+    if done:
+        # make the canonical names importable for the engines that resolve through the module's imports
+        extra: List[ast.stmt] = []
+        if np_aliases or from_numpy:
+            extra.append(ast.Import(names=[ast.alias(name="numpy", asname="np")]))
+        for alias_, mod in bare_modules.items():
+            used = {x.id for x in ast.walk(tree) if isinstance(x, ast.Name)}
+            names = sorted(n for n in ("prod", "factorial", "inf", "ceil", "floor", "sqrt", "ge", "gt", "le", "lt", "eq", "ne",
+                                       "permutations", "combinations_with_replacement", "combinations", "product", "chain") if n in used)
+            if names:
+                extra.append(ast.ImportFrom(module=mod, names=[ast.alias(name=n, asname=None) for n in names], level=0))
+        pos = 0
+        while pos < len(tree.body) and isinstance(tree.body[pos], ast.Expr) and isinstance(tree.body[pos].value, ast.Constant):
+            pos += 1
+        while pos < len(tree.body) and isinstance(tree.body[pos], ast.ImportFrom) and tree.body[pos].module == "__future__":
+            pos += 1
+        for e in extra:
+            ast.fix_missing_locations(e)
+        tree.body[pos:pos] = extra
+        ast.fix_missing_locations(tree)
+    return done
+
+
 def apply(tree: ast.Module) -> int:
-    done = call_arguments(tree)
+    done = import_spellings(tree)
+    done += call_arguments(tree)
     done += boolean_ints(tree)
     for node in ast.walk(tree):
         if isinstance(node, FuncDef):
